@@ -48,6 +48,8 @@ public:
 		std::thread thread;
 		std::function<void ()> body;
 		int prio = 0;
+		int csGroup = 0;           // parked at a hook inside a declared critical section of this group
+		const char * csTag = nullptr;
 	};
 
 	explicit Sched(ChoiceSource & ch, int strategy_, bool allowSpurious_)
@@ -142,12 +144,36 @@ public:
 	// preempting inside such a critical section would block the next thread in the kernel while it holds the baton.
 	std::string noPreemptPrefix;
 
+	// Mutual exclusion of the critical sections the hooks declare. The harness maps a hook tag to the group of
+	// sections that touch the same unsynchronised container of the single object under test (0 = none). A thread that is
+	// preempted at such a hook stays inside its section until it runs again, so a second thread that arrives at a hook
+	// of the same group is inside a section over the same container at the same time: the lock that should serialise
+	// them does not. Exact (no lockset approximation): both threads are really inside.
+	int (*csGroupOf)(const char * tag) = nullptr;
+	std::string csOverlap;
+	long csArrivals = 0;
+
 	void point(const char * tag) {
 		if(! active()) return;
 		if(! noPreemptPrefix.empty() && strncmp(tag, noPreemptPrefix.c_str(), noPreemptPrefix.size()) == 0) return;
 		++step;
 		++points;
 		Th & me = *th[self()];
+		const int group = (csGroupOf != nullptr && tag[0] == 'c' && tag[1] == 's' && tag[2] == '.') ? csGroupOf(tag) : 0;
+		if(group != 0) {
+			++csArrivals;
+			for(auto & t : th) {
+				if(t->id != me.id && t->csGroup == group && csOverlap.empty()) {
+					csOverlap = std::string("thread ") + std::to_string(me.id) + " is at '" + tag + "' while thread " + std::to_string(t->id)
+						+ " is still inside the critical section at '" + t->csTag + "' (same container, same object)";
+				}
+			}
+		}
+		struct Mark {
+			Th & t;
+			Mark(Th & t_, int g, const char * tg) : t(t_) { t.csGroup = g; t.csTag = tg; }
+			~Mark() { t.csGroup = 0; t.csTag = nullptr; }
+		} mark(me, group, tag);
 		if(tag[0] == 's' && tag[1] == 'p' && tag[2] == 'i') { // "spin..."
 			me.spinning = true;
 			++spinRounds;
